@@ -59,7 +59,9 @@ def cases(tier, seed):
     b = BOUNDS[tier]
     out = [dict(c, part='A1') for c in F.configs(b['max_n'], F.CLASSES_2D, l_max=b['l_max_2d'], used=True)]
     out += [dict(c, part='A1') for c in F.configs(b['max_n'], F.CLASSES_3D, l_max=b['l_max_3d'], used=True)]
-    out += [{'part': 'session', 'cfgs': seq} for seq in session.interleave_by_size(out)]
+    lib = list(out)
+    out += [{'part': 'session', 'cfgs': seq} for seq in session.interleave_by_size(lib)]
+    out += [{'part': 'session', 'cfgs': seq} for seq in session.across_classes(lib)]
     for sh in range(b['user_shapes']):
         out.append({'part': 'A2', 'n': 1, 'shape': sh, 'first': None})
         out.append({'part': 'A2', 'n': 2, 'shape': sh, 'first': None})
